@@ -87,6 +87,7 @@ def run(ctx, rep):
     depth_bound(F, rep)
     constant_index_is_converted_first(F, rep)
     expressions_are_typed_before_they_are_stored(F, rep)
+    unwrap_assign_target_is_a_name(F, rep)
     rep.extra["analysis_rounds"] = fl.rounds
     rep.extra["hand_assembled_option_unwraps_counted_not_judged"] = getattr(fl, "uncounted", 0)
     # K4 panics outside the clause: counted
@@ -647,3 +648,44 @@ def expressions_are_typed_before_they_are_stored(F, rep, rule="C16.typed-tree"):
                 len(checks), sorted({mir.short(mir.strip_generics(k.callee())) for k in oc})[:3])
     rep.ob(rule, "parse_expr returns an expression only if its finished tree type-checks", "ok" if ok else "violated", "" if ok else why, pe.span, fn=pe.path,
            key=rule + "|parse_expr")
+
+
+
+def unwrap_assign_target_is_a_name(F, rep, rule="C16.codegen-shape"):
+    """The code generator of `a ?= e` takes the name out of its left operand with `let Expr::Value(Value::Ident(..)) = lhs else { unreachable!() }`.
+    That shape has to be established where the operator is built: in the infix closure of parse_expr, `Op::Unwrap` is produced only behind the
+    edge of a match of the left operand *expression* against Expr::Value(Value::Ident) (the rule of the span is not enough: the span of
+    `self(..)` is the span of `self`)."""
+    pe = F.fn("compiler::ast::math_expr::parse_expr")
+    if pe is None:
+        raise AnchorMissing("math_expr::parse_expr")
+    va = F.adt("compiler::ast::value::Value")
+    vnames = [v["name"] for v in va["variants"]]
+    ident_i = str(vnames.index("Ident"))
+    sites = []
+    for g in F.closures_of(pe):
+        for bi, si, dst, rv, st in g.assigns():
+            if "agg" in rv and rv["agg"].get("adt") == "compiler::ast::math_expr::Op" and rv["agg"].get("v") == "Unwrap":
+                sites.append((g, bi, st.get("sp")))
+    rep.floor(rule + " constructions of Op::Unwrap in the expression parser", len(sites), 1)
+    for i, (g, bb, sp) in enumerate(sites):
+        passing = set()
+        for bi, blk in enumerate(g.blocks):
+            t = blk["t"]
+            if t["k"] != "switch" or t.get("dty") != "isize":
+                continue
+            dl = op_local(t["discr"])
+            for s_ in blk["s"]:
+                rv = s_.get("rv") or {}
+                if "d" in s_ and s_["d"]["l"] == dl and "discr" in rv:
+                    pr = rv["discr"].get("p") or []
+                    # the discriminant of the Value inside an Expr::Value
+                    if any(e[0] == "downcast" and e[1] == "Value" for e in pr) and any(e[0] == "field" and str(e[-1]).endswith("value::Value") for e in pr) \
+                            and "math_expr::Expr" in g.locals[rv["discr"]["l"]]:
+                        for v, tg in t["targets"]:
+                            if v == ident_i:
+                                passing.add((bi, tg))
+        ok = bool(passing) and bb not in g.reachable(0, removed_edges=passing)
+        rep.ob(rule, "`?=` is built only when its left operand is the expression of a plain name", "ok" if ok else "violated",
+               "" if ok else ("%d match(es) of an operand against Expr::Value(Value::Ident) in the closure; Op::Unwrap is reachable without one: `if self(nil) ?= m {}` "
+                              "in a function reaches the code generator's unreachable!()" % len(passing)), sp, fn=g.path, key="%s|unwrap-target#%d" % (rule, i))
